@@ -221,7 +221,7 @@ class Lifecycle(core.Scenario):
 
     def ws_push_action(self, a, k):
         def en(s):
-            return bool(s.world.server.open_ws()) and s.world.client.state == 'connected'
+            return bool(s.world.server.open_ws()) and s.world.client.state in ('connected', 'disconnecting')
 
         def fire(s):
             ws = s.world.server.open_ws()[-1]
@@ -285,7 +285,8 @@ class Lifecycle(core.Scenario):
             nd = kinds.count('disconnect')
             if nd != 1:
                 self.flag('disconnect_count', '%d disconnect events (events %r, state %r, causes %r)'
-                          % (nd, [e[:2] for e in ev], c.state, self.causes), trigger=trig)
+                          % (nd, [e[:2] for e in ev], c.state, self.causes), trigger=trig,
+                          reasons='+'.join(str(e[1]) for e in ev if e[0] == 'disconnect'))
             else:
                 i = kinds.index('disconnect')
                 reason = ev[i][1]
@@ -366,6 +367,8 @@ def scenario_class(p):
     eff = p.get('effects') or {}
     if eff:
         k = sorted(eff)[0]
+        if eff[k][0] == 'sleep':
+            return 'suspending_%s_handler' % k
         return 'handler:%s:%s' % (k, eff[k][0])
     tr0 = (p['transports'] or ['polling'])[0]
     if tr0 == 'websocket':
@@ -409,6 +412,9 @@ def param_list(ctx):
                 ps.append({'impl': impl, 'transports': ['polling'], 'connect': 'open_more' if hk != 'connect' else 'open',
                            'polls': seq, 'effects': {hk: ['disconnect']}})
             ps.append({'impl': impl, 'transports': ['polling'], 'connect': 'open_more', 'polls': seq, 'effects': {'message': ['raise']}})
+            # the disconnect handler suspends for a while: whatever the server does meanwhile must not produce a second event
+            ps.append({'impl': impl, 'transports': ['polling'], 'connect': 'open', 'polls': seq, 'app': ['disconnect'],
+                       'effects': {'disconnect': ['sleep', 0.25]}})
         # 4. WebSocket-only connections
         for beh in (['refuse'], ['accept', 'open'], ['accept', 'nonopen'], ['accept', 'garbage'], ['accept', 'close'], ['accept', 'silence']):
             ps.append({'impl': impl, 'transports': ['websocket'], 'connect': '-', 'ws': beh, 'polls': ['close'] if beh == ['accept', 'open'] else []})
@@ -421,6 +427,9 @@ def param_list(ctx):
             ps.append({'impl': impl, 'transports': ['websocket'], 'connect': '-', 'ws': ['accept', 'open'], 'polls': ['msg'], 'app': app})
         ps.append({'impl': impl, 'transports': ['websocket'], 'connect': '-', 'ws': ['accept', 'open'], 'polls': ['msg'],
                    'effects': {'connect': ['disconnect']}})
+        for seq in (['close'], ['s400'], ['msg', 'close']):
+            ps.append({'impl': impl, 'transports': ['websocket'], 'connect': '-', 'ws': ['accept', 'open'], 'polls': seq,
+                       'app': ['disconnect'], 'effects': {'disconnect': ['sleep', 0.25]}})
         # 5. upgrade attempts
         for beh in (['refuse'], ['accept', 'probe_ok'], ['accept', 'probe_wrong'], ['accept', 'probe_silence'],
                     ['accept', 'probe_close'], ['accept', 'probe_garbage']):
@@ -439,6 +448,9 @@ def run(ctx):
     rep = report.Report('C08', 'model_checking')
     bound = 1 if ctx.quick else 2
     params = param_list(ctx)
+    if not ctx.quick:
+        params = [dict(q, _free_switch=True) for q in params]
+        bound = 1       # with free switching one deviation already covers what two did under the charged model
     st, viols, samples, gate = core.run_search(Lifecycle, params, bound, ctx.workers, ctx.seed)
     for v in viols:
         pr = v['params']
